@@ -148,7 +148,8 @@ func (v *VMValue) ToJSONRaw(save map[*VMValue]bool) ([]byte, error) {
 			}{fd.Name},
 		})
 	}
-	return nil, nil
+	// this / 全局作用域等内部类型没有 JSON 形式；返回 (nil, nil) 会让外层拼出不合法的 JSON
+	return nil, errors.New("值错误: 类型 " + v.GetTypeName() + " 无法序列化")
 }
 
 func (v *VMValue) ToJSON() ([]byte, error) {
